@@ -104,4 +104,32 @@ theorem range_iff (pf : Bytes → Option Int) (maxKey : Int) (hb : ∀ b x, pf b
           | none => simp [hf, ht]
           | some x => cases fi <;> cases ti <;> simp [hf, ht, forall_end pf f fx hf, forall_end pf t tx ht]
 
+/-! ## the ends of a range are the literal's bytes verbatim: outer whitespace is significant -/
+
+theorem bLt_append (v w : Bytes) (hw : w ≠ []) : bLt v (v ++ w) := by
+  induction v with
+  | nil => cases w with
+    | nil => exact absurd rfl hw
+    | cons a as => simp [bLt, bcmp]
+  | cons x xs ih => simpa [bLt, bcmp] using ih
+
+/-- a text range with the closed lower end `v ++ w` (`w` non-empty, e.g. one trailing space) does NOT contain the
+token `v`; with the closed upper end `v` it does not contain `v ++ w`.  (A parser that trimmed the quoted end would
+make both wrong; keyword tokens are whole field values.) -/
+theorem range_end_suffix_significant (r : Range) (v w : Bytes) (hw : w ≠ []) :
+    (r.from_ = some (v ++ w) → r.checkText v = false) ∧
+    (r.to = some v → r.checkText (v ++ w) = false) := by
+  have hlt := bLt_append v w hw
+  have hgt : bcmp (v ++ w) v = .gt := (bcmp_gt_iff _ _).mpr hlt
+  obtain ⟨f, t, fi, ti⟩ := r
+  constructor
+  · intro hf
+    simp only at hf
+    subst hf
+    cases fi <;> simp [Range.checkText, hgt]
+  · intro ht
+    simp only at ht
+    subst ht
+    cases ti <;> simp [Range.checkText, hgt]
+
 end SV.Pattern
